@@ -151,6 +151,35 @@ def gc (pools : List Pool) : List Pool := pools.filter (fun p => !(p.deleting &&
 def reconcile (blocks : List (Bool × Pfx)) (pools : List Pool) : List Pool :=
   gc ((reconcileConditions pools).map (reconcileFinalizer blocks))
 
+/-! ### API write failures
+
+Every `UpdateStatus` (condition) and every `Update` (finalizer) may fail (conflict, network…).
+What the code does then: `updateCondition` has ALREADY applied the new condition to its
+local copy (`setConditionOnPool` runs before the write), returns the error, the error is
+collected and the pass goes on — in particular a terminating pool is inserted into the
+trie whether or not its status write succeeded, so the verdicts do not depend on write
+outcomes.  `reconcileFinalizer` then acts on the local copy (new condition), and its own
+`Update` may fail too; status is a subresource, so that `Update` never carries the
+condition to the API server.  A failed write leaves the API object unchanged. -/
+
+/-- Which writes of one pass fail, by pool name. -/
+structure Fails where
+  status : Nat → Bool   -- UpdateStatus of this pool fails
+  fin : Nat → Bool      -- Update (finalizers) of this pool fails
+
+def Fails.none : Fails := ⟨fun _ => false, fun _ => false⟩
+
+/-- The API object of one pool after a pass in which it got verdict `v`. -/
+def passPool (F : Fails) (blocks : List (Bool × Pfx)) (p : Pool) (v : Verdict) : Pool :=
+  let loc := applyVerdict p v                    -- the controller's local copy
+  let locF := reconcileFinalizer blocks loc      -- finalizer decision taken on the local copy
+  { p with cond := if F.status p.name then p.cond else loc.cond,
+           fin := if F.fin p.name then p.fin else locF.fin }
+
+/-- One `reconcile()` with write failures `F`, then the API server's garbage collection. -/
+def reconcileF (F : Fails) (blocks : List (Bool × Pfx)) (pools : List Pool) : List Pool :=
+  gc ((verdicts pools).map (fun pv => passPool F blocks pv.1 pv.2))
+
 /-! ### Histories -/
 
 structure State where
@@ -164,6 +193,7 @@ inductive Event where
   | addBlock (b : Bool × Pfx)
   | delBlock (b : Bool × Pfx)
   | reconcile
+  | reconcileF (failStatus failFin : List Nat)   -- a pass in which the listed pools' writes fail
   -- arbitrary configurations (state left behind by another writer / an older controller)
   | setCond (name : Nat) (c : Option Cond)
   | setFin (name : Nat) (b : Bool)
@@ -182,6 +212,7 @@ def State.step (s : State) : Event → State
   | .addBlock b => if s.blocks.contains b then s else { s with blocks := b :: s.blocks }  -- the informer cache is keyed by block
   | .delBlock b => { s with blocks := s.blocks.filter (· ≠ b) }
   | .reconcile => { s with pools := reconcile s.blocks s.pools }
+  | .reconcileF fs ff => { s with pools := reconcileF ⟨fun n => fs.contains n, fun n => ff.contains n⟩ s.blocks s.pools }
   | .setCond n c => { s with pools := updPool s.pools n (fun p => { p with cond := c }) }
   | .setFin n b => { s with pools := gc (updPool s.pools n (fun p => { p with fin := b })) }
 
